@@ -44,6 +44,7 @@ type pbTerm struct {
 	Tokens []lexer.Token
 	Num    *int    `  @Int`
 	Name   *string `| @Ident`
+	Str    *string `| @String`
 	Sub    *pbExpr `| "(" @@ ")"`
 }
 type pbOp struct {
@@ -93,7 +94,7 @@ type pbAlt struct {
 	C   string   ` | @Ident "(" Ident ")" "y" )`
 	Opt string   `( "," @Ident "!" )?`
 	Rep []string `( ";" @Ident "=" )*`
-	Neg []string `( "<" @!( @Ident ">" ) )*`
+	Neg []string `( "<" @~( @Ident ">" ) )*`
 	Lk  string   `( "[" (?! @Ident "]" ) @Int "]" )?`
 	End string   `@"."?`
 }
@@ -188,11 +189,12 @@ func TestVerifProbe_Parse(t *testing.T) {
 		b, _ := json.Marshal(pr)
 		fmt.Printf("VERIF-PROBE %s\n", b)
 	}()
-	opts := []participle.Option{participle.Lexer(probeLexer), participle.Elide("Whitespace", "Comment")}
-	lookaheads := []int{1, 2, 3, 5, 50, math.MaxInt, -1}
+	opts := []participle.Option{participle.Lexer(probeLexer), participle.Elide("Whitespace", "Comment"), participle.Unquote("String")}
+	lookaheads := []int{0, 1, 2, 3, 5, 50, math.MaxInt, -1}
 
 	// ---- program grammar: C13 (lookahead monotone), C10 (elided tokens), C11 (positions), C06 (errors) ----
-	inputs := []string{"", "a;", "1+2;", "let x=1;", "f();", "f(1,2);", "f(a+b,(c));", "let y = (1+2)*3; g(y); y;", "a", "1+;", "f(1,;", "let = 3;", "f(1 2);", ")", "let x=1; ;"}
+	inputs := []string{"", "a;", "1+2;", "let x=1;", "f();", "f(1,2);", "f(a+b,(c));", "let y = (1+2)*3; g(y); y;", "a", "1+;", "f(1,;", "let = 3;", "f(1 2);", ")", "let x=1; ;",
+		`f("x y","tab");`, `"a b"+"c";g("z");`, "f(a,b,c);g(1+2+3,4);", "f(a b);"}
 	spaced := func(s string) []string {
 		a := strings.NewReplacer(";", " ;\n", "(", "( ", ",", " , ", "=", " = ", "+", " /*c*/ + ").Replace(s)
 		return []string{" " + s, s + "  ", "/*lead*/" + a + "/*trail*/ ", a}
@@ -332,8 +334,11 @@ func TestVerifProbe_Parse(t *testing.T) {
 		}
 	}
 
+	// ---- abandoned attempts inside lookahead / negation, committed failures inside repetition (C02, C01, C13) ----
+	moreCases(pr, opts)
+
 	// ---- typed / case-insensitive literals (C01, C10) ----
-	pk, err := participle.Build[pbKw](append(opts, participle.CaseInsensitive("Ident"), participle.Unquote("String"))...)
+	pk, err := participle.Build[pbKw](append(opts, participle.CaseInsensitive("Ident"))...)
 	if err != nil {
 		pr.fail("Build(pbKw): %v", err)
 		return
@@ -345,4 +350,303 @@ func TestVerifProbe_Parse(t *testing.T) {
 			pr.fail("keyword grammar: input %q gives %s %v, want %s", c.in, probeAST(v), perr, c.ast)
 		}
 	}
+}
+
+type pbLk struct {
+	Label string `(?! @Ident ":" )`
+	Probe *pbQ   `(?! @@ )`
+	Name  string `@Ident`
+	Rest  string `@Ident?`
+}
+type pbNg struct {
+	Key  string   `( "<" ~( @Ident "=" ) )?`
+	Vals []string `@Ident*`
+}
+type pbRep struct {
+	Items []string `( "a" @"b" "c" )*`
+	Tail  string   `@"d"?`
+}
+type pbInner struct {
+	V []string `( @"a" @"b" @"c" | @"a" @"b" @"d" )`
+}
+type pbOuter struct {
+	Opt  *pbInner `@@?`
+	Rest []string `@Ident*`
+}
+type pbKw2 struct {
+	Null bool   `  @"null":Ident`
+	Str  string `| @String`
+}
+
+func moreCases(pr *pProbe, opts []participle.Option) {
+	type want struct {
+		in, ast string
+		minK  int // the expectation holds for every lookahead >= minK (and unlimited)
+	}
+	run := func(name string, parse func(k int, in string) (string, error, bool), cases []want) {
+		for _, k := range []int{1, 2, 3, 5, 50, -1} {
+			for _, c := range cases {
+				if k >= 0 && k < c.minK {
+					continue
+				}
+				pr.Tried++
+				got, err, ok := parse(k, c.in)
+				if !ok {
+					continue
+				}
+				if c.ast == "" {
+					if err == nil {
+						pr.fail("%s, lookahead %d: input %q must be rejected, got %s", name, k, c.in, got)
+					}
+					continue
+				}
+				if err != nil || got != c.ast {
+					pr.fail("%s, lookahead %d: input %q gives %s %v, the accepted derivation captures exactly %s", name, k, c.in, got, err, c.ast)
+				}
+			}
+		}
+	}
+	build := func(k int) []participle.Option { return append(append([]participle.Option{}, opts...), participle.UseLookahead(k)) }
+	run("lookahead-group grammar", func(k int, in string) (string, error, bool) {
+		p, err := participle.Build[pbLk](build(k)...)
+		if err != nil {
+			pr.fail("Build(pbLk): %v", err)
+			return "", nil, false
+		}
+		v, perr, ok := tryParse(pr, p, "lookahead-group grammar", in)
+		return probeAST(v), perr, ok
+	}, []want{{"abc", `{"Label":"","Probe":null,"Name":"abc","Rest":""}`, 1}, {"abc x", `{"Label":"","Probe":null,"Name":"abc","Rest":"x"}`, 1}, {"abc :", ``, 1}})
+	// nothing captured inside a negated expression is ever visible, whether or not the parse succeeds
+	for _, k := range []int{1, 2, 5, -1} {
+		p, err := participle.Build[pbNg](build(k)...)
+		if err != nil {
+			pr.fail("Build(pbNg): %v", err)
+			break
+		}
+		for _, in := range []string{"< abc x", "x y", "< abc = x", "< abc"} {
+			pr.Tried++
+			v, perr, ok := tryParse(pr, p, "negation grammar", in)
+			if ok && perr == nil && v.Key != "" {
+				pr.fail("negation grammar, lookahead %d: input %q: Key == %q was captured inside a negated expression", k, in, v.Key)
+			}
+		}
+	}
+	run("repetition grammar", func(k int, in string) (string, error, bool) {
+		p, err := participle.Build[pbRep](build(k)...)
+		if err != nil {
+			pr.fail("Build(pbRep): %v", err)
+			return "", nil, false
+		}
+		v, perr, ok := tryParse(pr, p, "repetition grammar", in)
+		return probeAST(v), perr, ok
+	}, []want{{"a b c a b c d", `{"Items":["b","b"],"Tail":"d"}`, 1}, {"a b c a b d", ``, 1}, {"a b c", `{"Items":["b"],"Tail":""}`, 1}})
+	// a failed attempt that consumed more than the lookahead commits the parse: with lookahead 1 the input must be
+	// rejected; with lookahead >= 2 the second alternative is found
+	for _, k := range []int{1, 2, 5, -1} {
+		p, err := participle.Build[pbOuter](build(k)...)
+		if err != nil {
+			pr.fail("Build(pbOuter): %v", err)
+			break
+		}
+		pr.Tried++
+		v, perr, ok := tryParse(pr, p, "commit grammar", "a b d")
+		if !ok {
+			continue
+		}
+		if k == 1 && perr == nil {
+			pr.fail("commit grammar, lookahead 1: input \"a b d\" parses to %s although the first alternative failed after consuming 2 > 1 tokens", probeAST(v))
+		}
+		if k != 1 && (perr != nil || probeAST(v) != `{"Opt":{"V":["a","b","d"]},"Rest":null}`) {
+			pr.fail("commit grammar, lookahead %d: input \"a b d\" gives %s %v", k, probeAST(v), perr)
+		}
+	}
+	// typed literal among case-insensitive types: the type constraint still applies
+	pk, err := participle.Build[pbKw2](append(append([]participle.Option{}, opts...), participle.CaseInsensitive("Ident", "String"))...)
+	if err == nil {
+		pr.Tried++
+		v, perr, ok := tryParse(pr, pk, "typed literal grammar", `"Null"`)
+		if ok && (perr != nil || probeAST(v) != `{"Null":false,"Str":"Null"}`) {
+			pr.fail("typed literal grammar: input %q gives %s %v: the literal \"null\":Ident must not match a String token", `"Null"`, probeAST(v), perr)
+		}
+	}
+	buildCases(pr)
+	// Unquote at string edges, mappers run before elision, Trace changes nothing, ParseFromLexer leaves the lexer in place
+	entryPointCases(pr, opts)
+}
+
+type pbStrs struct {
+	S []string `@String*`
+}
+type pbIdents struct {
+	I []string `@Ident*`
+}
+type pbPair struct {
+	K string `@Ident "="`
+	V string `@Ident`
+}
+
+func (p *pbPair) Parse(lex *lexer.PeekingLexer) error {
+	k := lex.Peek()
+	if k.EOF() {
+		return participle.NextMatch
+	}
+	p.K = lex.Next().Value
+	lex.Next()
+	p.V = lex.Next().Value
+	return nil
+}
+
+func entryPointCases(pr *pProbe, opts []participle.Option) {
+	ps, err := participle.Build[pbStrs](opts...)
+	if err != nil {
+		pr.fail("Build(pbStrs): %v", err)
+		return
+	}
+	for _, s := range []string{"a", "", "x y"} {
+		pr.Tried++
+		v, perr, ok := tryParse(pr, ps, "strings grammar", `"`+s+`"`)
+		if ok && (perr != nil || len(v.S) != 1 || v.S[0] != s) {
+			pr.fail("strings grammar: Unquote of %q gives %v %v", `"`+s+`"`, v, perr)
+		}
+	}
+	// mappers see tokens before elision: upper-casing comments is visible in Parser.Lex
+	seen := 0
+	pm, err := participle.Build[pbIdents](participle.Lexer(probeLexer), participle.Elide("Whitespace", "Comment"),
+		participle.Map(func(t lexer.Token) (lexer.Token, error) {
+			if !t.EOF() {
+				seen++
+			}
+			return t, nil
+		}), participle.Upper("Comment"))
+	if err == nil {
+		pr.Tried++
+		toks, lerr := pm.Lex("", strings.NewReader("a /*c*/ b"))
+		if lerr != nil || seen != 5 {
+			pr.fail("mapper grammar: a Map() without symbols saw %d of the 5 non-EOF tokens of %q (%v)", seen, "a /*c*/ b", lerr)
+		}
+		for _, tk := range toks {
+			if strings.HasPrefix(tk.Value, "/*") && tk.Value != "/*C*/" {
+				pr.fail("mapper grammar: Upper(\"Comment\") left the elided comment token as %q", tk.Value)
+			}
+		}
+	}
+	// Trace changes nothing
+	long := strings.Repeat("x", 60)
+	pi, err := participle.Build[pbIdents](opts...)
+	if err == nil {
+		pr.Tried++
+		a, e1, ok1 := tryParse(pr, pi, "idents grammar", long+" b")
+		var sb strings.Builder
+		b, e2 := pi.ParseString("file", long+" b", participle.Trace(&sb))
+		if ok1 && (probeAST(a) != probeAST(b) || (e1 == nil) != (e2 == nil)) {
+			pr.fail("idents grammar: with Trace the result is %s %v, without it %s %v", probeAST(b), e2, probeAST(a), e1)
+		}
+	}
+	// ParseFromLexer with trailing input allowed: the caller's lexer ends at the first token not consumed
+	pp, err := participle.Build[pbPair](opts...)
+	if err == nil {
+		pr.Tried++
+		lx, _ := probeLexer.LexString("", "a = b c = d")
+		pl, _ := lexer.Upgrade(lx, probeLexer.Symbols()["Whitespace"], probeLexer.Symbols()["Comment"])
+		func() {
+			defer func() {
+				if r := recover(); r != nil {
+					pr.fail("ParseFromLexer panicked: %v", r)
+				}
+			}()
+			v, perr := pp.ParseFromLexer(pl, participle.AllowTrailing(true))
+			if perr != nil || v.K != "a" || v.V != "b" || pl.Peek().Value != "c" {
+				pr.fail("ParseFromLexer(\"a = b c = d\", AllowTrailing): got %+v %v and the caller's lexer is at %q, want {a b} and \"c\"", v, perr, pl.Peek().Value)
+			}
+		}()
+	}
+}
+
+// ---- Build (C19): never panics; rejects what the property says it rejects; accepts documented grammars ----
+
+type bdCap struct{ V string }
+
+func (c *bdCap) Capture(v []string) error { c.V = v[0]; return nil }
+
+type (
+	bdOK1 struct {
+		A string   `@Ident ( "," @Ident )*`
+		B []string `( "[" @String "]" | @"x"+ )?`
+	}
+	bdOK2 struct {
+		A *bdOK1  `@@`
+		B []*bdOK1 `( ";" @@ )*`
+		C bool    `@"!"?`
+		D int     `( ":" @Int )?`
+		E string  `(?= "q" ) @Ident?`
+		F string  `(?! "z" ) ~"w"?`
+	}
+	bdOK3 struct {
+		Many []bdCap  `@Ident*`
+		Ptrs []*bdCap `( "," @Ident )*`
+		One  bdCap    `( "=" @Ident )?`
+	}
+	bdOK4 struct {
+		A string "@'a' 'bc' @\"d\""
+	}
+	bdBadStar      struct{ A string "*" }
+	bdBadAt        struct{ A string "@" }
+	bdBadNeg       struct{ A string "!" }
+	bdBadAlt       struct{ A string `"a" | ?` }
+	bdBadAtNeg     struct{ A string "@~" }
+	bdBadGroup     struct{ A string `( "a"` }
+	bdBadLook      struct{ A string `(? "a" )` }
+	bdBadLook2     struct{ A string `(?= "a"` }
+	bdBadToken     struct{ A string `@Nope` }
+	bdBadEmptyAlt  struct{ A string `"a" | | "b"` }
+	bdBadQuote     struct{ A string `@'` }
+	bdBadQuote2    struct{ A string `"a` }
+	bdBadTyped     struct{ A string `"a":Nope` }
+	bdBadOptional  struct{ A string `[ "a"` }
+	bdBadRepeat    struct{ A string `{ "a"` }
+	bdNoGrammar    struct{ A string }
+	bdBadStructCap struct {
+		A bdNoGrammar `@Ident`
+	}
+)
+
+func buildOne[G any](pr *pProbe, wantErr bool) {
+	name := fmt.Sprintf("%T", *new(G))
+	pr.Tried++
+	defer func() {
+		if r := recover(); r != nil {
+			pr.fail("Build[%s] panicked: %v", name, r)
+		}
+	}()
+	_, err := participle.Build[G](participle.Lexer(probeLexer))
+	if wantErr && err == nil {
+		pr.fail("Build[%s] accepted a grammar the property says is rejected", name)
+	}
+	if !wantErr && err != nil {
+		pr.fail("Build[%s] rejected a grammar that follows the documented tag syntax: %v", name, err)
+	}
+}
+
+func buildCases(pr *pProbe) {
+	buildOne[bdOK1](pr, false)
+	buildOne[bdOK2](pr, false)
+	buildOne[bdOK3](pr, false)
+	buildOne[bdOK4](pr, false)
+	buildOne[bdBadStar](pr, true)
+	buildOne[bdBadAt](pr, true)
+	buildOne[bdBadNeg](pr, true)
+	buildOne[bdBadAlt](pr, true)
+	buildOne[bdBadAtNeg](pr, true)
+	buildOne[bdBadGroup](pr, true)
+	buildOne[bdBadLook](pr, true)
+	buildOne[bdBadLook2](pr, true)
+	buildOne[bdBadToken](pr, true)
+	buildOne[bdBadEmptyAlt](pr, true)
+	buildOne[bdBadQuote](pr, true)
+	buildOne[bdBadQuote2](pr, true)
+	buildOne[bdBadTyped](pr, true)
+	buildOne[bdBadOptional](pr, true)
+	buildOne[bdBadRepeat](pr, true)
+	buildOne[bdNoGrammar](pr, true)
+	buildOne[bdBadStructCap](pr, true)
 }
